@@ -8,30 +8,38 @@
     (authenticators with fallback, authorizers/contextualizers, finalizers, each
     with an optional `if` condition and continue-on-error) -> error pipeline ->
     recorded pipeline error -> Finalize -> error translator -> recovery
-    middleware.  A rule's step lists are arbitrary lists (no bound); the outcome
-    of every step and condition is data: success, any error value (arbitrary
-    tree), a panic.
+    middleware -> (proxy) the upstream, which answers or drops the connection.
+    A rule's step lists are arbitrary lists (no bound); the outcome of every
+    step, condition and error handler on the request is data: success, any error
+    value (arbitrary tree), a panic; error handlers may be ARBITRARY ([EhAny f]).
 
-    Specification vocabulary (C01/Proofs.v, first section): [pipeline_succeeded],
-    [applied], [positive], [non_success].
+    Specification vocabulary (C01/Proofs.v, first section, independent of the
+    model's functions): [pipeline_completed], [applied], [positive], [non_success],
+    [positive_shape], [records], [reaches_panic].
 
-    Hypotheses, all on configuration: [sane c r] =
-      no status override is a 1xx/2xx code                 ([overrides_not_success], see C12),
-      no error value / redirect handler carries such a code ([redirects_ok]),
-      the rule has an authenticator                         (guaranteed by the rule factory, C14),
-      every error handler is default/redirect/www_authenticate, or fails, or panics ([real_handlers]);
-    and, to tell a positive decision-service answer from an error response, the
-    accepted status is a 1xx/2xx code.  Each is shown to be needed below. *)
+    Hypotheses ([sane c r]):
+      on the configuration — no status override is a 1xx/2xx code (see C12); the
+        rule has an authenticator (guaranteed by the rule factory, C14); for the
+        decision service only, the accepted status is a 1xx/2xx code (to tell its
+        positive answer from an error response);
+      on the error VALUES produced by mechanisms, conditions and panics — none
+        carries a RedirectError with a 1xx/2xx code ([redirects_ok]; heimdall's own
+        redirect handler cannot have one, [C01_loader_redirect_never_success]);
+      on error handlers — each records a pipeline error before it reports
+        "handled" ([handlers_record]; shown for heimdall's three mechanisms).
+    Each is shown to be needed by a witness below. *)
 From HV Require Import Base.Prelude Base.ErrChain C12.Model C12.Proofs C01.Model C01.Proofs Run.Eval_C01 C01.EvalSound.
 Local Open Scope Z_scope.
+
+(** * Property theorems *)
 
 (** a positive answer (accepted status / forwarded to the upstream / Envoy OK)
     only if a rule or the default rule applied and its pipeline completed *)
 Theorem C01_positive_only_if : forall en c l q,
-  (forall r, applied l r -> sane c r) -> success_like (accepted_code c) = true ->
+  (forall r, applied l r -> sane c r) -> (en = Decision -> success_like (accepted_code c) = true) ->
   overrides_not_success (c_respond c) ->
   positive en c (serve en c l q) ->
-  exists r, applied l r /\ pipeline_succeeded r.
+  exists r, applied l r /\ pipeline_completed r.
 Proof. exact positive_only_if. Qed.
 Print Assumptions C01_positive_only_if.
 
@@ -40,7 +48,7 @@ Print Assumptions C01_positive_only_if.
     caller receives a non-success response and nothing reaches the upstream *)
 Theorem C01_failed_never_reaches_upstream : forall en c l q,
   (forall r, applied l r -> sane c r) -> overrides_not_success (c_respond c) ->
-  (forall r, applied l r -> ~ pipeline_succeeded r) ->
+  (forall r, applied l r -> ~ pipeline_completed r) ->
   non_success (serve en c l q).
 Proof. exact failed_never_reaches_upstream. Qed.
 Print Assumptions C01_failed_never_reaches_upstream.
@@ -48,101 +56,72 @@ Print Assumptions C01_failed_never_reaches_upstream.
 (** there is no third kind of answer: every request is answered either by a
     non-success response without any upstream contact, or - a rule applied and its
     pipeline completed - by exactly the positive answer (accepted status and no
-    upstream contact / the upstream's answer after exactly one forwarded request /
-    Envoy OK) *)
+    upstream contact / exactly one forwarded request / Envoy OK) *)
 Theorem C01_answer_dichotomy : forall en c l q,
   (forall r, applied l r -> sane c r) -> overrides_not_success (c_respond c) ->
   non_success (serve en c l q) \/
-  (exists r, applied l r /\ pipeline_succeeded r /\
-     serve en c l q = match en with
-                      | Decision => AHttp (accepted_code c) 0
-                      | Proxy => AHttp upstream_status 1
-                      | Envoy => AEnvoyOk
-                      end).
+  (exists r, applied l r /\ pipeline_completed r /\ positive_shape en c (serve en c l q)).
 Proof. exact answer_dichotomy. Qed.
 Print Assumptions C01_answer_dichotomy.
 
-(** no error pipeline, whatever its handlers, conditions and their outcomes,
-    turns a failed pipeline into a positive answer *)
+(** the error pipeline, made of ANY handlers behind any conditions of which only
+    [records] is assumed, never reports "handled" with no pipeline error recorded *)
+Theorem C01_error_pipeline_never_forgets : forall ehs cause ret p,
+  Forall handler_records ehs -> run_eh ehs cause = EhRet ret p -> ret = None -> p <> None.
+Proof. exact error_pipeline_never_forgets. Qed.
+Print Assumptions C01_error_pipeline_never_forgets.
+
+(** ... hence no error pipeline turns a failed pipeline into a positive answer *)
 Theorem C01_error_handler_cannot_rescue : forall en c r q ehs,
-  sane c (with_eh r ehs) -> ~ pipeline_succeeded r ->
+  overrides_not_success (c_respond c) -> redirects_ok r -> sc r <> [] ->
+  Forall good_eh ehs -> Forall handler_records ehs ->
+  ~ pipeline_completed r ->
   non_success (serve en c (Matched (with_eh r ehs)) q) /\ non_success (serve en c (Default (with_eh r ehs)) q).
 Proof. exact error_handler_cannot_rescue. Qed.
 Print Assumptions C01_error_handler_cannot_rescue.
 
-(** ... because every existing handler records a pipeline error, which Finalize
-    checks first: a handler reporting success without recording one would rescue *)
-Theorem C01_silent_handler_would_rescue :
-  ~ pipeline_succeeded silent_rule /\ ~ real_handlers silent_rule /\
-  serve Decision plain_config (Matched silent_rule) plain_request = AHttp 200 0 /\
-  serve Envoy plain_config (Matched silent_rule) plain_request = AEnvoyOk.
-Proof. exact silent_handler_would_rescue. Qed.
-Print Assumptions C01_silent_handler_would_rescue.
+(** ... and heimdall's three mechanisms (default, redirect, www_authenticate; C12's
+    model of them, tied to the code by both streams) do record *)
+Theorem C01_real_mechanisms_record : forall m, records (h_sem (EhReal m)).
+Proof. exact real_mechanisms_record. Qed.
+Print Assumptions C01_real_mechanisms_record.
 
-(** a panic anywhere (mechanism, condition, error handler) is a non-success: the
-    internal-error response of the HTTP services, a gRPC Internal status (no
-    CheckResponse at all) under Envoy *)
-Theorem C01_panic_is_non_success : forall en c r q v,
-  sane c r -> run_rule en r q = RPanic v ->
-  serve_rule en c r q = fail_answer en c (ScPanic v) /\
-  non_success (serve_rule en c r q) /\
-  (en = Envoy -> serve_rule en c r q = AEnvoyStatus GInternal) /\
-  (en <> Envoy -> v = None -> valid_code (http_code (ov_internal (c_respond c)) 500) = true ->
-     serve_rule en c r q = AHttp (http_code (ov_internal (c_respond c)) 500) 0).
-Proof. exact panic_is_non_success. Qed.
-Print Assumptions C01_panic_is_non_success.
+(** a panic that is reached — by an authenticator after legitimate fallbacks, by a
+    step or its condition after steps that went on, by an error handler or its
+    condition after non-applicable handlers; [reaches_panic] is stated on the rule
+    alone — is a non-success: the internal-error response of the HTTP services,
+    a gRPC Internal status (no CheckResponse at all) under Envoy.  This includes
+    panicking continue-on-error steps, which [pipeline_completed] exempts. *)
+Theorem C01_reached_panic_is_non_success : forall en c l r q v,
+  applied l r -> sane c r -> reaches_panic r v ->
+  non_success (serve en c l q) /\
+  (en = Envoy -> slash_rejected en r q = false -> serve en c l q = AEnvoyStatus GInternal) /\
+  (en <> Envoy -> slash_rejected en r q = false -> v = None ->
+     valid_code (http_code (ov_internal (c_respond c)) 500) = true ->
+     serve en c l q = AHttp (http_code (ov_internal (c_respond c)) 500) 0).
+Proof. exact reached_panic_is_non_success. Qed.
+Print Assumptions C01_reached_panic_is_non_success.
 
-(** converse: a completed pipeline (without panicking steps) is answered
-    positively — the accepted status, the upstream's answer after exactly one
-    forwarded request, Envoy OK *)
+(** converse (liveness, not part of the statement; with C04's reading of fallback):
+    a succeeded pipeline without panicking steps is answered positively *)
 Theorem C01_success_is_positive : forall en c l r q,
   applied l r -> pipeline_succeeded r -> quiet r -> slash_rejected en r q = false ->
   (en = Decision -> valid_code (accepted_code c) = true) -> (en = Proxy -> backend r = true) ->
-  serve en c l q = match en with
-                   | Decision => AHttp (accepted_code c) 0
-                   | Proxy => AHttp upstream_status 1
-                   | Envoy => AEnvoyOk
-                   end /\
-  positive en c (serve en c l q).
+  positive_shape en c (serve en c l q) /\ positive en c (serve en c l q) /\
+  (en = Proxy -> forall s, q_upstream q = UpOk s -> serve en c l q = AHttp s 1).
 Proof. exact success_is_positive. Qed.
 Print Assumptions C01_success_is_positive.
 
-(** the executable predicate used on the implementation's observations is the specification *)
-Theorem C01_succeeded_b_spec : forall r, succeeded_b r = true <-> pipeline_succeeded r.
-Proof. exact succeeded_b_spec. Qed.
-Print Assumptions C01_succeeded_b_spec.
-
-(** the correspondence evaluator's property predicate (Run/Eval_C01.v: under the
-    executable hypotheses, a failed or absent pipeline must be observed as a
-    non-success with zero upstream hits, a completed quiet one as exactly the
-    positive answer) is a consequence of the theorems above: it holds on every
-    case on which the implementation's observations agree with the model *)
-Theorem C01_check_sound : forall k, v_corr (check k) = true -> v_prop (check k) = true.
-Proof. exact check_sound. Qed.
-Print Assumptions C01_check_sound.
-
-(** the hypotheses are needed: a rule without authenticators runs with a nil subject ... *)
-Theorem C01_no_authenticator_is_positive :
-  ~ pipeline_succeeded empty_rule /\
-  serve Decision plain_config (Matched empty_rule) plain_request = AHttp 200 0 /\
-  serve Proxy plain_config (Matched empty_rule) plain_request = AHttp 200 1 /\
-  serve Envoy plain_config (Matched empty_rule) plain_request = AEnvoyOk.
-Proof. exact no_authenticator_is_positive. Qed.
-Print Assumptions C01_no_authenticator_is_positive.
-
-(** ... and a redirect error handler with `code: 200` answers a failed pipeline with a success status *)
-Theorem C01_success_redirect_is_positive :
-  ~ pipeline_succeeded redirect200_rule /\ ~ redirects_ok redirect200_rule /\
-  positive Decision plain_config (serve Decision plain_config (Matched redirect200_rule) plain_request).
-Proof. exact success_redirect_is_positive. Qed.
-Print Assumptions C01_success_redirect_is_positive.
-
 (** since fix: 6c5864d the loader accepts redirect handlers with a code in 300..399
     (or none = 302) only: the redirect-code hypothesis holds for every loaded
-    redirect handler, and the witness above cannot be loaded any more *)
+    redirect handler *)
 Theorem C01_loader_redirect_never_success : forall h,
   loader_created h -> good_cond (e_if h) ->
-  match e_kind h with EhFails e => good_err e | EhPanics v => good_panic v | _ => True end ->
+  match e_kind h with
+  | EhFails e => good_err e | EhPanics v => good_panic v
+  | EhAny f => forall cause, good_err cause -> good_eh_res (f cause)
+  | _ => True
+  end ->
   good_eh h /\
   match e_kind h with
   | EhReal (MRedirect code _) => 300 <= redirect_status code <= 399 /\ success_like (redirect_status code) = false
@@ -151,18 +130,71 @@ Theorem C01_loader_redirect_never_success : forall h,
 Proof. exact loader_redirect_never_success. Qed.
 Print Assumptions C01_loader_redirect_never_success.
 
-Theorem C01_success_redirect_rule_not_loadable : ~ Forall loader_created (eh redirect200_rule).
-Proof. exact success_redirect_rule_not_loadable. Qed.
-Print Assumptions C01_success_redirect_rule_not_loadable.
+(** * Witnesses (computations on concrete rules: the hypotheses are needed, the
+      theorems are not vacuous, how the statement is read) *)
+
+(** a handler reporting success without recording a pipeline error would rescue *)
+Theorem C01_silent_handler_would_rescue :
+  ~ pipeline_completed silent_rule /\ ~ handlers_record silent_rule /\
+  serve Decision plain_config (Matched silent_rule) plain_request = AHttp 200 0 /\
+  serve Envoy plain_config (Matched silent_rule) plain_request = AEnvoyOk.
+Proof. exact silent_handler_would_rescue. Qed.
+Print Assumptions C01_silent_handler_would_rescue.
+
+(** a rule without authenticators runs with a nil subject *)
+Theorem C01_no_authenticator_is_positive :
+  ~ pipeline_completed empty_rule /\
+  serve Decision plain_config (Matched empty_rule) plain_request = AHttp 200 0 /\
+  serve Proxy plain_config (Matched empty_rule) plain_request = AHttp 200 1 /\
+  serve Envoy plain_config (Matched empty_rule) plain_request = AEnvoyOk.
+Proof. exact no_authenticator_is_positive. Qed.
+Print Assumptions C01_no_authenticator_is_positive.
+
+(** a redirect error with code 200 answers a failed pipeline with a success status
+    (such a handler cannot be loaded any more: [success_redirect_rule_not_loadable]) *)
+Theorem C01_success_redirect_is_positive :
+  ~ pipeline_completed redirect200_rule /\ ~ redirects_ok redirect200_rule /\
+  positive Decision plain_config (serve Decision plain_config (Matched redirect200_rule) plain_request).
+Proof. exact success_redirect_is_positive. Qed.
+Print Assumptions C01_success_redirect_is_positive.
+
+(** a panicking continue-on-error step: completed by the letter, a reached panic, answered 500 *)
+Example C01_continue_step_panic_is_reached :
+  pipeline_completed panicking_continue_rule /\ reaches_panic panicking_continue_rule None /\
+  serve Proxy plain_config (Matched panicking_continue_rule) plain_request = AHttp 500 0.
+Proof. exact continue_step_panic_is_reached. Qed.
+Print Assumptions C01_continue_step_panic_is_reached.
+
+(** reading of the statement: continue-on-error steps are exempt as a whole — the
+    evaluation error of such a step's condition is swallowed like the step's own error *)
+Example C01_continue_step_condition_error_is_swallowed :
+  pipeline_completed swallowed_condition_rule /\
+  serve Decision plain_config (Matched swallowed_condition_rule) plain_request = AHttp 200 0 /\
+  serve Proxy plain_config (Matched swallowed_condition_rule) plain_request = AHttp 200 1.
+Proof. exact continue_step_condition_error_is_swallowed. Qed.
+Print Assumptions C01_continue_step_condition_error_is_swallowed.
 
 (** non-vacuity *)
 Example C01_nonvacuous :
   sane plain_config (ex_rule Ok) /\ pipeline_succeeded (ex_rule Ok) /\ quiet (ex_rule Ok) /\
   serve Proxy plain_config (Matched (ex_rule Ok)) plain_request = AHttp 200 1 /\
   sane plain_config (ex_rule (Fail (Sentinel KInternal))) /\
-  ~ pipeline_succeeded (ex_rule (Fail (Sentinel KInternal))) /\
+  ~ pipeline_completed (ex_rule (Fail (Sentinel KInternal))) /\
   serve Proxy plain_config (Matched (ex_rule (Fail (Sentinel KInternal)))) plain_request = AHttp 302 0 /\
   serve Envoy plain_config (Default (ex_rule (Fail (Sentinel KInternal)))) plain_request
     = AEnvoyDenied GFailedPrecondition 302.
 Proof. exact nonvacuous. Qed.
 Print Assumptions C01_nonvacuous.
+
+(** * Supporting lemmas about the evaluator (not counted as property theorems) *)
+
+(** the executable predicates used on the observations are the specification *)
+Lemma C01_completed_b_spec : forall r, completed_b r = true <-> pipeline_completed r.
+Proof. exact completed_b_spec. Qed.
+
+(** the evaluator's property predicate demands nothing the theorems do not give: it
+    holds whenever the observations equal the model's answers and the hypotheses hold *)
+Lemma C01_prop_of_exact : forall en k o,
+  ans_match (serve en (k_cfg k) (k_l k) (k_q k)) o = true -> hyps_b en k = true -> prop_entry en k o = true.
+Proof. exact prop_entry_of_exact. Qed.
+Print Assumptions C01_prop_of_exact.
